@@ -5,6 +5,8 @@ use crate::value::Ev;
 #[derive(Default, Debug, Clone, PartialEq)]
 pub struct Counters {
   pub finalize_calls: usize,
+  /// for every finalize callback run: (script step, number of probe deliveries made before it)
+  pub finalize_marks: Vec<(usize, usize)>,
   pub tap_calls: usize,
   pub src_calls: usize,
   pub on_complete_calls: usize,
@@ -58,6 +60,8 @@ pub struct Trace {
   pub counters_at_terminal: Option<Counters>,
   /// timers fired by the final drain
   pub drain_firings: usize,
+  /// finalize callback runs counted after subscription and after every script step
+  pub finalize_after_step: Vec<usize>,
 }
 
 impl Trace {
